@@ -106,6 +106,9 @@ pub enum RequestCreationError {
     /// The client sent an `Expect` header that was not recognized by tiny-http.
     ExpectationFailed,
 
+    /// The client sent a `Content-Length` header that is not a plain decimal number.
+    InvalidContentLength,
+
     /// Error while reading data from the socket during the creation of the `Request`.
     CreationIoError(IoError),
 }
@@ -152,10 +155,22 @@ where
         // header must be ignored (RFC2616 #4.4)
         None
     } else {
-        headers
+        match headers
             .iter()
             .find(|h: &&Header| h.field.equiv("Content-Length"))
-            .and_then(|h| FromStr::from_str(h.value.as_str()).ok())
+            .map(|h| h.value.as_str())
+        {
+            None => None,
+            // only a plain decimal number is acceptable: `usize::from_str` would
+            // also let a leading `+` through
+            Some(v) if v.starts_with('+') => {
+                return Err(RequestCreationError::InvalidContentLength)
+            }
+            Some(v) => match usize::from_str(v) {
+                Ok(length) => Some(length),
+                Err(_) => return Err(RequestCreationError::InvalidContentLength),
+            },
+        }
     };
 
     // true if the client sent a `Expect: 100-continue` header
